@@ -6,6 +6,7 @@ from props import dwtfam
 
 ID = 'C10'
 GRAD_MODES = True
+MODE_ALIAS = True
 PROPS_MODULE = 'Props.C10'
 THEOREMS = ['C10_level_nonper_row', 'C10_level_per_row', 'C10_level_2d', 'C10_level_2d_per', 'C10_multilevel_1d', 'C10_multilevel_1d_per', 'C10_multilevel_2d', 'C10_multilevel_2d_per', 'C10_level_per_row_code', 'C10_per_short_refuted']
 VO = ['theories/Props/C10.vo', 'theories/Run/RunDwt.vo', 'theories/Run/RunSpec.vo']
@@ -83,7 +84,7 @@ def oracle_run(cfg):
             sh = shapes_1d(cfg['N'], J, L, mode)
             yh = [r.standard_normal((2, 2, n)) for n in sh]
             yl = r.standard_normal((2, 2, sh[-1]))
-            got = DWT1DInverse(wave=wn, mode=mode)((torch.tensor(yl), [None if m else torch.tensor(h) for m, h in zip(mask, yh)])).numpy()
+            got = DWT1DInverse(wave=wn, mode=lib_mode(cfg))((torch.tensor(yl), [None if m else torch.tensor(h) for m, h in zip(mask, yh)])).numpy()
             want = pywt.waverec([yl] + [np.zeros_like(h) if m else h for m, h in zip(mask, yh)][::-1], wn, mode=mode, axis=-1)
             ext = (cfg['N'],)
         else:
@@ -92,7 +93,7 @@ def oracle_run(cfg):
             yh = [r.standard_normal((1, 2, 3, a, b)) for a, b in zip(shh, shw)]
             yl = r.standard_normal((1, 2, shh[-1], shw[-1]))
             from props import c01
-            got = DWTInverse(wave=c01.wave_arg(cfg, 'rec'), mode=mode)((torch.tensor(yl), [None if m else torch.tensor(h) for m, h in zip(mask, yh)])).numpy()
+            got = DWTInverse(wave=c01.wave_arg(cfg, 'rec'), mode=lib_mode(cfg))((torch.tensor(yl), [None if m else torch.tensor(h) for m, h in zip(mask, yh)])).numpy()
             ref = [yl] + [tuple((np.zeros_like(h) if m else h)[:, :, b] for b in range(3)) for m, h in zip(mask, yh)][::-1]
             want = pywt.waverec2(ref, c01.pywt_arg(cfg), mode=mode, axes=(-2, -1))
             ext = (cfg['H'], cfg['W'])
